@@ -17,7 +17,7 @@ ASSUMPTIONS = ["consecutive atoms of angles/dihedrals are also bonded in the alp
                "reference: pmc/ref_genparams.expected_exclusions"]
 BUDGET = {"quick": 420, "thorough": 2400}
 
-LINKSETS = [["bb"], ["bb", "a_c"], ["gt"], ["bb", "lt_sa"], ["bb", "exl"]]
+LINKSETS = [["bb"], ["bb", "a_c"], ["gt"], ["bb", "lt_sa"], ["bb", "exl"], ["bb", "intra"]]
 
 
 def cases(tier):
